@@ -17,8 +17,8 @@
 
 using namespace vh;
 
-static long index_ncases(const std::string& tier) { return tier == "thorough" ? 21500 : 660; }
-// quick: every 11th case (60 of 660); thorough: 3 of every 43 cases (1500 of 21500)
+static long index_ncases(const std::string& tier) { return tier == "thorough" ? 64500 : 660; }
+// quick: every 11th case (60 of 660); thorough: 3 of every 43 cases (4500 of 64500)
 static bool is_physics_case(const std::string& tier, long k) {
     if (tier == "thorough") { long r = k % 43; return r == 13 || r == 27 || r == 41; }
     return k % 11 == 10;
@@ -34,13 +34,15 @@ static std::vector<std::string> hostile_labels() {
 // Output: integers only (sites are referred to by their position in the input list, -1 = label not among the inputs).
 //   S size | I i ok site orb spin back | T site orb spin idx3 idxInfo bok bsite borb bspin | C n b0..b(n-1) | X thrown(size) thrown(size+7) | END
 // level 0: construct + prepare only; level 1: + all in-range look-ups; level 2: + out-of-range getInfo (reads past the table if unguarded)
-static std::string index_probe(const std::vector<SiteSpec>& sites, bool spin_major, int level) {
+// reprepare: prepare() is first called with the other ordering and then with the wanted one on the same object ("switching the ordering mode")
+static std::string index_probe(const std::vector<SiteSpec>& sites, bool spin_major, int level, bool reprepare = false) {
     // we are in the forked child: a fatal signal must kill it silently (MPI / sanitizer handlers would print a backtrace)
     signal(SIGSEGV, SIG_DFL); signal(SIGBUS, SIG_DFL); signal(SIGABRT, SIG_DFL); signal(SIGFPE, SIG_DFL); signal(SIGILL, SIG_DFL);
     { int dn = open("/dev/null", O_WRONLY); if (dn >= 0) { dup2(dn, 2); close(dn); } }
     Pomerol::Lattice L;
     for (auto& s : sites) L.addSite(new Pomerol::Lattice::Site(s.label, (unsigned short)s.norb, (unsigned short)s.nspin));
     Pomerol::IndexClassification IC(L.getSiteMap());
+    if (reprepare) IC.prepare(!spin_major);
     IC.prepare(spin_major);
     if (level == 0) return "END\n";
     auto site_of = [&](const std::string& lab) { for (size_t k = 0; k < sites.size(); ++k) if (sites[k].label == lab) return (int)k; return -1; };
@@ -141,19 +143,19 @@ static void bijection_case(Ctx& c) {
     c.nontrivial = ns >= 2 && (het_orb || het_spin || orb2);
     const std::string st = sites_text(sites);
 
-    for (int sm = 0; sm < 2; ++sm) {
-        const bool spin_major = sm == 1;
-        const std::string mk = spin_major ? "spin-major" : "default";
-        const std::string call = "IndexClassification(sites).prepare(" + std::string(spin_major ? "true" : "false") + "); " + st;
+    for (int sm = 0; sm < 4; ++sm) {
+        const bool spin_major = (sm & 1) == 1, reprepare = sm >= 2;
+        const std::string mk = std::string(spin_major ? "spin-major" : "default") + (reprepare ? ":after-reprepare" : "");
+        const std::string call = "IndexClassification(sites)" + std::string(reprepare ? (spin_major ? ".prepare(false)" : ".prepare(true)") : "") + ".prepare(" + std::string(spin_major ? "true" : "false") + "); " + st;
         c.count("lattices:" + mk + ":" + ((het_orb || het_spin) ? "hetero" : "uniform"));
-        IsoResult res = run_isolated([&] { return index_probe(sites, spin_major, 2); }, 20);
+        IsoResult res = run_isolated([&] { return index_probe(sites, spin_major, 2, reprepare); }, 20);
         auto dead = [](const IsoResult& x) { return !(x.exited && x.exit_code == 0); };
         bool have_oob = true;
         if (dead(res)) {
             // attribute the death to the first stage that reproduces it alone
             c.count("child_died");
-            IsoResult r0 = run_isolated([&] { return index_probe(sites, spin_major, 0); }, 20);
-            IsoResult r1; if (!dead(r0)) r1 = run_isolated([&] { return index_probe(sites, spin_major, 1); }, 20);
+            IsoResult r0 = run_isolated([&] { return index_probe(sites, spin_major, 0, reprepare); }, 20);
+            IsoResult r1; if (!dead(r0)) r1 = run_isolated([&] { return index_probe(sites, spin_major, 1, reprepare); }, 20);
             const IsoResult& blame = dead(r0) ? r0 : (dead(r1) ? r1 : res);
             std::string stage = dead(r0) ? "prepare" : (dead(r1) ? "lookup" : "getInfo-out-of-range");
             std::string how = blame.timed_out ? "timeout" : "crash";
